@@ -17,7 +17,7 @@ CHECKS = {
     'C05': ('worldsim', '5.5', 'bracket automaton over testSetUp/testTearDown events of seeded simulated runs with injected outcome faults'),
     'C03': ('worldsim', '5.3', 'executed multiset over all pids vs. reference selection model, for --list-tests / sequential / simulated -j N / resumed executions of one spec (exactly-once across processes)'),
     'C06': ('procsim', '5.6', 'seeded and directed (all k! forced completion orders, barrier, stalls) schedules of the real resume_tests/spawn threads over tape-replaying child actors; block/ordering oracle, alive<=N invariant at every spawn, bounded-progress by structural hang detection'),
-    'C07': ('procsim', '5.7', 'channel fault injection on the simulated child processes (crash at every hook site, truncation at every report offset, noise, back-pressure, EINTR, spawn failure); delivered-report oracle, deadlock detection by the scheduler'),
+    'C07': ('procsim', '5.7', 'channel fault injection on the simulated child processes (crash at every hook site incl. uncaught SystemExit/KeyboardInterrupt, truncation at every report offset, noise before/after the report, back-pressure, EINTR, spawn failures of several exception classes, a child that closes its pipes but lives on, a parent stdout that cannot encode, megabyte reports); delivered-report oracle, deadlock detection by the scheduler'),
     'C10': ('ordersim', '5.10', 'the nondeterminism sources the statement names (discovery order, layer-object creation order/addresses, --layer option order, PYTHONHASHSEED lanes) are permuted by the simulator around the real Runner(found_suites=...); order invariants on the simulated runs'),
     'C11': ('worldsim', '5.11', 'simulated clocks with parent/child skew decide the default seed; order equality across list/sequential/-j N/resumed/--layer executions and reproduction from the reported seed'),
     'C12': ('worldsim', '5.12', 'printed counts/lists vs. trace ground truth, and sequential vs. simulated -j N / resumed executions of the same spec'),
